@@ -26,12 +26,58 @@
 //! kind "stress": in = [nthreads, programs]; same programs, no hook, threads run freely and
 //!   only wait for the handles they reference.  out = ["ok", results, final counter].
 //!
+//! Round 4 additions (sources created through the public `from_custom_source` API, streamed file
+//! sources, several pipelines, every public collect entry point, big inputs):
+//!   in = [nthreads, programs, schedule, env]   (hist)   /   [nthreads, programs, env]   (stress)
+//!   env = [pipes, files]
+//!     pipes[t]  = index (0..3) of the Pipeline thread t works on; a call may only reference
+//!                 handles made by threads of the same pipeline (the pipelines are independent
+//!                 state machines; what they SHARE are the files and the adapter objects)
+//!     files[f]  = [fmt, p, lines]   fmt 0 JSONL / 1 CSV / 2 Parquet;  p: CSV has_headers (0/1),
+//!                 Parquet max row-group size (0 = ironbeam's own writer), JSONL 0;
+//!                 lines = [[k,v] | null, ..] (null = a blank line, JSONL only) or
+//!                 ["gen", n, base, kmod, blank]: line i = row (i mod kmod, base + i), blank when
+//!                 blank > 0 and i mod blank = blank - 1.   Written to a scratch dir before the run.
+//!   new calls:
+//!     ["src", ["gen", n, base, kmod]]   from_vec of the generated rows (big sources)
+//!     ["custom", lm, sp, pages]         from_custom_source(p, Pages(pages), PagesOps{lm, sp}): a USER
+//!                                       written VecOps; lm 0: len() = None ("unknown until read"),
+//!                                       lm 1: len() = Some(total); sp 0: split() = None (the runner
+//!                                       falls back to clone_any), sp 1: split() = the pages as they
+//!                                       are (n ignored), sp 2: split() = the built-in chunking of the
+//!                                       concatenated pages; clone_any() = the concatenated pages
+//!     ["file", a, f, s]                 a streamed source over file f with shard size s.
+//!                                       a = 0: read_{jsonl,csv,parquet}_streaming (a fresh adapter);
+//!                                       a > 0: from_custom_source(p, build_*_shards(file, s), ADAPTER a)
+//!                                       where adapter a (one per format) is ONE Jsonl/Csv/ParquetVecOps
+//!                                       instance shared by all sources of the case that name it, in
+//!                                       whatever pipeline.  Parquet rows are a struct, the call maps
+//!                                       them to rows: 1 + 2 locks; JSONL / CSV: 1 lock.
+//!     ["collect", mode, [t,k]]          mode 0 collect_seq; 1..=999 collect_par(None, Some(mode));
+//!                                       1000 collect_par(None, None); 1001 collect();
+//!                                       1002 collect_seq_sorted; 1003 collect_par_sorted(None, Some(2));
+//!                                       1004 collect_par_sorted_by_key(None, Some(3));
+//!                                       1005 Runner{Sequential, default_partitions 1}.run_collect;
+//!                                       1006 Runner{Parallel{None,None}, default_partitions 3}.run_collect
+//!     ["digest", mode, [t,k]]           the same, but only [n, sum h, sum (i+1) h] of the rows is
+//!                                       reported (["okd", n, s1, s2]); h = row_hash, see below
+//!
 //! Values: rows are (i64 key, Val); Val = int | pair | none | some, JSON: z | [a,b] | null | [a].
 use ibv::{Emitter, SplitMix64, Tier, drive};
 use ironbeam::verif::set_yield_hook;
 use ironbeam::collection::LiftableCombiner;
-use ironbeam::{CombineFn, DynOp, PCollection, Partition, Pipeline, Timestamped, Window, from_vec};
+use ironbeam::io::csv::{CsvVecOps, build_csv_shards};
+use ironbeam::io::jsonl::{JsonlVecOps, build_jsonl_shards};
+use ironbeam::io::parquet::{ParquetVecOps, build_parquet_shards};
+use ironbeam::type_token::{VecOps, vec_ops_for};
+use ironbeam::{
+    CombineFn, DynOp, ExecMode, PCollection, Partition, Pipeline, Runner, Timestamped, Window,
+    from_custom_source, from_vec, read_csv_streaming, read_jsonl_streaming, read_parquet_streaming,
+};
+use serde::{Deserialize, Serialize};
 use serde_json::{Value, json};
+use std::any::Any;
+use std::path::{Path, PathBuf};
 use std::cell::Cell;
 use std::collections::HashMap;
 use std::panic::{AssertUnwindSafe, catch_unwind};
@@ -92,6 +138,298 @@ fn opt(v: Option<Val>) -> Val {
 type Row = (i64, Val);
 fn rows_json(rows: &[Row]) -> Value {
     Value::Array(rows.iter().map(|(k, v)| json!([k, v.json()])).collect())
+}
+/// a value read from a file is an integer leaf (JSONL line `[k,v]`, CSV record `k,v`)
+impl<'de> Deserialize<'de> for Val {
+    fn deserialize<D: serde::Deserializer<'de>>(d: D) -> Result<Val, D::Error> {
+        i64::deserialize(d).map(Val::I)
+    }
+}
+/// Parquet rows are structs
+#[derive(Clone, Serialize, Deserialize)]
+struct PRow {
+    k: i64,
+    v: i64,
+}
+
+const HM: i128 = 2_147_483_647; // 2^31 - 1
+/// hash of a value / a row for the digests of big results (mirrored in Corr/C08.v)
+fn val_hash(v: &Val) -> i128 {
+    match v {
+        Val::I(z) => i128::from(*z).rem_euclid(HM),
+        Val::P(a, b) => (val_hash(a) * 31 + val_hash(b) * 17 + 1).rem_euclid(HM),
+        Val::N => 7,
+        Val::S(a) => (val_hash(a) * 13 + 3).rem_euclid(HM),
+    }
+}
+fn row_hash(r: &Row) -> i128 {
+    (i128::from(r.0).rem_euclid(HM) * 1_000_003 + val_hash(&r.1)).rem_euclid(HM)
+}
+/// ["okd", n, sum of h, sum of (i+1) h]  (all mod 2^31 - 1)
+fn rows_digest(rows: &[Row]) -> Value {
+    let (mut s1, mut s2) = (0i128, 0i128);
+    for (i, r) in rows.iter().enumerate() {
+        let h = row_hash(r);
+        s1 = (s1 + h).rem_euclid(HM);
+        s2 = (s2 + (i as i128 + 1) * h).rem_euclid(HM);
+    }
+    json!(["okd", rows.len(), s1 as i64, s2 as i64])
+}
+
+// ------------------------------------------------------------------ row / file specifications
+
+/// rows of a source: listed, or generated (row i = (i mod kmod, base + i))
+#[derive(Clone, Debug, PartialEq)]
+enum RowsSpec {
+    List(Vec<(i64, i64)>),
+    Gen(usize, i64, i64),
+}
+impl RowsSpec {
+    fn rows(&self) -> Vec<(i64, i64)> {
+        match self {
+            RowsSpec::List(d) => d.clone(),
+            RowsSpec::Gen(n, base, kmod) => {
+                (0..*n as i64).map(|i| (i.rem_euclid(*kmod), base + i)).collect()
+            }
+        }
+    }
+    fn json(&self) -> Value {
+        match self {
+            RowsSpec::List(d) => Value::Array(d.iter().map(|(k, v)| json!([k, v])).collect()),
+            RowsSpec::Gen(n, base, kmod) => json!(["gen", n, base, kmod]),
+        }
+    }
+    fn parse(v: &Value) -> Option<RowsSpec> {
+        let a = v.as_array()?;
+        if a.first().and_then(Value::as_str) == Some("gen") {
+            if a.len() != 4 {
+                return None;
+            }
+            let (n, base, kmod) = (a[1].as_u64()? as usize, a[2].as_i64()?, a[3].as_i64()?);
+            if n > MAX_ROWS || kmod < 1 || base.abs() > 1_000_000 {
+                return None;
+            }
+            return Some(RowsSpec::Gen(n, base, kmod));
+        }
+        let mut d = Vec::new();
+        for r in a {
+            d.push(parse_pair(r)?);
+        }
+        Some(RowsSpec::List(d))
+    }
+}
+const MAX_ROWS: usize = 1 << 17;
+fn parse_pair(r: &Value) -> Option<(i64, i64)> {
+    let r = r.as_array()?;
+    if r.len() != 2 {
+        return None;
+    }
+    Some((r[0].as_i64()?, r[1].as_i64()?))
+}
+
+/// lines of a file: listed (None = blank line), or generated
+#[derive(Clone, Debug, PartialEq)]
+enum LinesSpec {
+    List(Vec<Option<(i64, i64)>>),
+    Gen(usize, i64, i64, usize),
+}
+impl LinesSpec {
+    fn lines(&self) -> Vec<Option<(i64, i64)>> {
+        match self {
+            LinesSpec::List(d) => d.clone(),
+            LinesSpec::Gen(n, base, kmod, blank) => (0..*n)
+                .map(|i| {
+                    if *blank > 0 && i % blank == blank - 1 {
+                        None
+                    } else {
+                        Some(((i as i64).rem_euclid(*kmod), base + i as i64))
+                    }
+                })
+                .collect(),
+        }
+    }
+    fn has_blank(&self) -> bool {
+        match self {
+            LinesSpec::List(d) => d.iter().any(Option::is_none),
+            LinesSpec::Gen(n, _, _, blank) => *blank > 0 && *blank <= *n,
+        }
+    }
+    fn json(&self) -> Value {
+        match self {
+            LinesSpec::List(d) => Value::Array(
+                d.iter().map(|l| l.map_or(Value::Null, |(k, v)| json!([k, v]))).collect(),
+            ),
+            LinesSpec::Gen(n, base, kmod, blank) => json!(["gen", n, base, kmod, blank]),
+        }
+    }
+    fn parse(v: &Value) -> Option<LinesSpec> {
+        let a = v.as_array()?;
+        if a.first().and_then(Value::as_str) == Some("gen") {
+            if a.len() != 5 {
+                return None;
+            }
+            let (n, base, kmod, blank) =
+                (a[1].as_u64()? as usize, a[2].as_i64()?, a[3].as_i64()?, a[4].as_u64()? as usize);
+            if n > MAX_ROWS || kmod < 1 || base.abs() > 1_000_000 {
+                return None;
+            }
+            return Some(LinesSpec::Gen(n, base, kmod, blank));
+        }
+        let mut d = Vec::new();
+        for r in a {
+            d.push(if r.is_null() { None } else { Some(parse_pair(r)?) });
+        }
+        Some(LinesSpec::List(d))
+    }
+}
+#[derive(Clone, Debug, PartialEq)]
+struct FileSpec {
+    fmt: u8,  // 0 JSONL, 1 CSV, 2 Parquet
+    p: usize, // CSV: has_headers; Parquet: max row-group size (0 = ironbeam's writer)
+    lines: LinesSpec,
+}
+impl FileSpec {
+    fn json(&self) -> Value {
+        json!([self.fmt, self.p, self.lines.json()])
+    }
+    fn parse(v: &Value) -> Option<FileSpec> {
+        let a = v.as_array()?;
+        if a.len() != 3 {
+            return None;
+        }
+        let f = FileSpec {
+            fmt: u8::try_from(a[0].as_u64()?).ok()?,
+            p: a[1].as_u64()? as usize,
+            lines: LinesSpec::parse(&a[2])?,
+        };
+        let ok = match f.fmt {
+            0 => f.p == 0,
+            1 => f.p <= 1 && !f.lines.has_blank(),
+            // an empty Parquet file has no schema to infer the columns from: not generated
+            2 => f.p <= MAX_ROWS && !f.lines.has_blank() && !f.lines.lines().is_empty(),
+            _ => false,
+        };
+        if ok { Some(f) } else { None }
+    }
+    /// write the file (by hand for JSONL / CSV; Parquet through arrow or ironbeam's writer)
+    fn write(&self, path: &Path) -> anyhow::Result<()> {
+        use std::fmt::Write as _;
+        let lines = self.lines.lines();
+        match self.fmt {
+            0 => {
+                let mut s = String::new();
+                for l in &lines {
+                    match l {
+                        Some((k, v)) => writeln!(s, "[{k},{v}]")?,
+                        None => s.push('\n'),
+                    }
+                }
+                std::fs::write(path, s)?;
+            }
+            1 => {
+                let mut s = String::new();
+                if self.p == 1 {
+                    s.push_str("k,v\n");
+                }
+                for (k, v) in lines.iter().flatten() {
+                    writeln!(s, "{k},{v}")?;
+                }
+                std::fs::write(path, s)?;
+            }
+            _ => {
+                let data: Vec<PRow> = lines.iter().flatten().map(|(k, v)| PRow { k: *k, v: *v }).collect();
+                if self.p == 0 {
+                    ironbeam::write_parquet_vec(path, &data)?;
+                } else {
+                    write_parquet_groups(path, &data, self.p)?;
+                }
+            }
+        }
+        Ok(())
+    }
+}
+fn write_parquet_groups(path: &Path, data: &Vec<PRow>, rg: usize) -> anyhow::Result<()> {
+    use arrow::datatypes::FieldRef;
+    use parquet::arrow::arrow_writer::ArrowWriter;
+    use parquet::file::properties::WriterProperties;
+    use serde_arrow::schema::{SchemaLike, TracingOptions};
+    let fields: Vec<FieldRef> = Vec::<FieldRef>::from_type::<PRow>(TracingOptions::default())?;
+    let batch = serde_arrow::to_record_batch(&fields, data)?;
+    let props = WriterProperties::builder().set_max_row_group_size(rg).build();
+    let mut w = ArrowWriter::try_new(std::fs::File::create(path)?, batch.schema(), Some(props))?;
+    w.write(&batch)?;
+    w.close()?;
+    Ok(())
+}
+#[derive(Clone, Debug, Default, PartialEq)]
+struct Env {
+    pipes: Vec<usize>,
+    files: Vec<FileSpec>,
+}
+impl Env {
+    fn plain(n: usize) -> Env {
+        Env { pipes: vec![0; n], files: Vec::new() }
+    }
+    fn is_plain(&self) -> bool {
+        self.files.is_empty() && self.pipes.iter().all(|q| *q == 0)
+    }
+    fn json(&self) -> Value {
+        json!([self.pipes, self.files.iter().map(FileSpec::json).collect::<Vec<_>>()])
+    }
+    fn parse(v: &Value, n: usize) -> Option<Env> {
+        let a = v.as_array()?;
+        if a.len() != 2 {
+            return None;
+        }
+        let mut pipes = Vec::new();
+        for q in a[0].as_array()? {
+            let q = q.as_u64()? as usize;
+            if q > 3 {
+                return None;
+            }
+            pipes.push(q);
+        }
+        if pipes.len() != n {
+            return None;
+        }
+        let mut files = Vec::new();
+        for f in a[1].as_array()? {
+            files.push(FileSpec::parse(f)?);
+        }
+        if files.len() > 16 {
+            return None;
+        }
+        Some(Env { pipes, files })
+    }
+}
+
+/// A user-written source (the shape of the example in the `from_custom_source` documentation and
+/// of tests/extensions.rs): the payload is a list of pages.
+struct Pages(Vec<Vec<Row>>);
+struct PagesOps {
+    lm: u8,
+    sp: u8,
+}
+impl VecOps for PagesOps {
+    fn len(&self, data: &dyn Any) -> Option<usize> {
+        let p = data.downcast_ref::<Pages>()?;
+        if self.lm == 0 { None } else { Some(p.0.iter().map(Vec::len).sum()) }
+    }
+    fn split(&self, data: &dyn Any, n: usize) -> Option<Vec<Partition>> {
+        let p = data.downcast_ref::<Pages>()?;
+        match self.sp {
+            0 => None,
+            1 => Some(p.0.iter().map(|pg| Box::new(pg.clone()) as Partition).collect()),
+            _ => {
+                let flat: Vec<Row> = p.0.iter().flatten().cloned().collect();
+                vec_ops_for::<Row>().split(&flat, n)
+            }
+        }
+    }
+    fn clone_any(&self, data: &dyn Any) -> Option<Partition> {
+        let p = data.downcast_ref::<Pages>()?;
+        Some(Box::new(p.0.iter().flatten().cloned().collect::<Vec<Row>>()) as Partition)
+    }
 }
 
 // ------------------------------------------------------------------ the builder table
@@ -378,17 +716,27 @@ fn build_derive(tk: &Tick, op: Op, a: i64, b: i64, p: PCollection<Row>) -> PColl
 type Ref = (usize, usize);
 #[derive(Clone, Debug)]
 enum Call {
-    Src(Vec<(i64, i64)>),
+    Src(RowsSpec),
+    /// from_custom_source over a user-written VecOps: (len mode, split mode, pages)
+    Custom(u8, u8, Vec<Vec<(i64, i64)>>),
+    /// a streamed file source: adapter (0 = the read_*_streaming entry point), file, shard size,
+    /// and the file's format (copied from the file table when the call is parsed)
+    File(usize, usize, usize, u8),
     /// one public transform builder (table `Op`) with two integer parameters
     Derive(Op, i64, i64, Ref),
     Join(u8, Ref, Ref),
-    Collect(usize, Ref),
+    /// mode, handle, report a digest instead of the rows
+    Collect(usize, Ref, bool),
+}
+fn mode_ok(m: usize) -> bool {
+    m <= 999 || (1000..=1006).contains(&m)
 }
 impl Call {
     /// number of pipeline-lock acquisitions (= yield points) of the call
     fn steps(&self) -> usize {
         match self {
-            Call::Src(_) => 1,
+            Call::Src(_) | Call::Custom(..) => 1,
+            Call::File(_, _, _, fmt) => if *fmt == 2 { 3 } else { 1 },
             Call::Derive(op, ..) => 2 * op.nodes(),
             Call::Join(..) => 7,
             Call::Collect(..) => 3,
@@ -396,19 +744,34 @@ impl Call {
     }
     fn inserts(&self) -> usize {
         match self {
-            Call::Src(_) => 1,
+            Call::Src(_) | Call::Custom(..) => 1,
+            Call::File(_, _, _, fmt) => if *fmt == 2 { 2 } else { 1 },
             Call::Derive(op, ..) => op.nodes(),
             Call::Join(..) => 3,
             Call::Collect(..) => 0,
         }
     }
+    fn is_source(&self) -> bool {
+        matches!(self, Call::Src(_) | Call::Custom(..) | Call::File(..))
+    }
     fn json(&self) -> Value {
         match self {
-            Call::Src(d) => json!(["src", d.iter().map(|(k, v)| json!([k, v])).collect::<Vec<_>>()]),
+            Call::Src(d) => json!(["src", d.json()]),
+            Call::Custom(lm, sp, pages) => json!([
+                "custom",
+                lm,
+                sp,
+                pages
+                    .iter()
+                    .map(|pg| pg.iter().map(|(k, v)| json!([k, v])).collect::<Vec<_>>())
+                    .collect::<Vec<_>>()
+            ]),
+            Call::File(a, f, s, _) => json!(["file", a, f, s]),
             Call::Derive(Op::Map, c, _, r) => json!(["map", c, [r.0, r.1]]),
             Call::Derive(op, a, b, r) => json!([op.name(), a, b, [r.0, r.1]]),
             Call::Join(k, l, r) => json!(["join", k, [l.0, l.1], [r.0, r.1]]),
-            Call::Collect(m, x) => json!(["collect", m, [x.0, x.1]]),
+            Call::Collect(m, x, false) => json!(["collect", m, [x.0, x.1]]),
+            Call::Collect(m, x, true) => json!(["digest", m, [x.0, x.1]]),
         }
     }
 }
@@ -423,19 +786,31 @@ fn parse_ref(v: &Value) -> Option<Ref> {
     }
     Some((a[0].as_u64()? as usize, a[1].as_u64()? as usize))
 }
-fn parse_call(v: &Value) -> Option<Call> {
+fn parse_call(v: &Value, files: &[FileSpec]) -> Option<Call> {
     let a = v.as_array()?;
     match (a.first()?.as_str()?, a.len()) {
-        ("src", 2) => {
-            let mut d = Vec::new();
-            for r in a[1].as_array()? {
-                let r = r.as_array()?;
-                if r.len() != 2 {
-                    return None;
-                }
-                d.push((r[0].as_i64()?, r[1].as_i64()?));
+        ("src", 2) => Some(Call::Src(RowsSpec::parse(&a[1])?)),
+        ("custom", 4) => {
+            let (lm, sp) = (a[1].as_u64()?, a[2].as_u64()?);
+            if lm > 1 || sp > 2 {
+                return None;
             }
-            Some(Call::Src(d))
+            let mut pages = Vec::new();
+            for pg in a[3].as_array()? {
+                let mut rows = Vec::new();
+                for r in pg.as_array()? {
+                    rows.push(parse_pair(r)?);
+                }
+                pages.push(rows);
+            }
+            Some(Call::Custom(lm as u8, sp as u8, pages))
+        }
+        ("file", 4) => {
+            let (ad, f, sh) = (a[1].as_u64()? as usize, a[2].as_u64()? as usize, a[3].as_u64()? as usize);
+            if ad > 8 || sh > 2 * MAX_ROWS + 1 {
+                return None;
+            }
+            Some(Call::File(ad, f, sh, files.get(f)?.fmt))
         }
         ("map", 3) => Some(Call::Derive(Op::Map, a[1].as_i64()?, 0, parse_ref(&a[2])?)),
         (name, 4) if Op::from_name(name).is_some() => {
@@ -453,11 +828,17 @@ fn parse_call(v: &Value) -> Option<Call> {
             }
             Some(Call::Join(k as u8, parse_ref(&a[2])?, parse_ref(&a[3])?))
         }
-        ("collect", 3) => Some(Call::Collect(a[1].as_u64()? as usize, parse_ref(&a[2])?)),
+        (tag @ ("collect" | "digest"), 3) => {
+            let m = a[1].as_u64()? as usize;
+            if !mode_ok(m) {
+                return None;
+            }
+            Some(Call::Collect(m, parse_ref(&a[2])?, tag == "digest"))
+        }
         _ => None,
     }
 }
-fn parse_programs(n: &Value, v: &Value) -> Option<Vec<Vec<Call>>> {
+fn parse_programs(n: &Value, v: &Value, files: &[FileSpec]) -> Option<Vec<Vec<Call>>> {
     let n = n.as_u64()? as usize;
     let a = v.as_array()?;
     if a.len() != n || n == 0 || n > 8 {
@@ -467,7 +848,7 @@ fn parse_programs(n: &Value, v: &Value) -> Option<Vec<Vec<Call>>> {
     for p in a {
         let mut calls = Vec::new();
         for c in p.as_array()? {
-            calls.push(parse_call(c)?);
+            calls.push(parse_call(c, files)?);
         }
         out.push(calls);
     }
@@ -479,7 +860,7 @@ fn handle_kinds(p: &[Call]) -> Vec<bool> {
     let mut out = Vec::new();
     for c in p {
         match c {
-            Call::Src(_) | Call::Derive(..) => out.push(true),
+            Call::Src(_) | Call::Custom(..) | Call::File(..) | Call::Derive(..) => out.push(true),
             Call::Join(..) => {
                 out.push(false);
                 out.push(true);
@@ -495,14 +876,16 @@ fn handle_kinds(p: &[Call]) -> Vec<bool> {
 
 struct Sim<'a> {
     programs: &'a [Vec<Call>],
+    pipes: Vec<usize>,
     kinds: Vec<Vec<bool>>,
     pos: Vec<(usize, usize)>, // next (call, step) of each thread
     produced: Vec<usize>,     // handles completed by each thread
 }
 impl<'a> Sim<'a> {
-    fn new(programs: &'a [Vec<Call>]) -> Self {
+    fn new(programs: &'a [Vec<Call>], pipes: &[usize]) -> Self {
         Sim {
             programs,
+            pipes: (0..programs.len()).map(|t| pipes.get(t).copied().unwrap_or(0)).collect(),
             kinds: programs.iter().map(|p| handle_kinds(p)).collect(),
             pos: vec![(0, 0); programs.len()],
             produced: vec![0; programs.len()],
@@ -511,8 +894,10 @@ impl<'a> Sim<'a> {
     fn done(&self, t: usize) -> bool {
         self.pos[t].0 >= self.programs[t].len()
     }
-    fn avail(&self, r: Ref, need_general: bool) -> bool {
+    /// thread t may use handle r: it exists, belongs to t's pipeline (and is a general one)
+    fn avail(&self, t: usize, r: Ref, need_general: bool) -> bool {
         r.0 < self.programs.len()
+            && self.pipes[r.0] == self.pipes[t]
             && r.1 < self.produced[r.0]
             && (!need_general || self.kinds[r.0][r.1])
     }
@@ -528,10 +913,10 @@ impl<'a> Sim<'a> {
         let call = &self.programs[t][ci];
         if st == 0 {
             let ok = match call {
-                Call::Src(_) => true,
-                Call::Derive(_, _, _, r) => self.avail(*r, true),
-                Call::Join(_, l, r) => self.avail(*l, true) && self.avail(*r, true),
-                Call::Collect(_, r) => self.avail(*r, false),
+                Call::Src(_) | Call::Custom(..) | Call::File(..) => true,
+                Call::Derive(_, _, _, r) => self.avail(t, *r, true),
+                Call::Join(_, l, r) => self.avail(t, *l, true) && self.avail(t, *r, true),
+                Call::Collect(_, r, _) => self.avail(t, *r, false),
             };
             if !ok {
                 return Err(());
@@ -539,7 +924,9 @@ impl<'a> Sim<'a> {
         }
         // handles appear with the last lock of the API call that returns them
         match call {
-            Call::Src(_) if st == 0 => self.produced[t] += 1,
+            Call::Src(_) | Call::Custom(..) | Call::File(..) if st + 1 == call.steps() => {
+                self.produced[t] += 1;
+            }
             Call::Derive(op, ..) if st + 1 == 2 * op.nodes() => self.produced[t] += 1,
             Call::Join(..) if st == 4 || st == 6 => self.produced[t] += 1,
             _ => {}
@@ -550,8 +937,12 @@ impl<'a> Sim<'a> {
 }
 
 /// the turns (tid, call, step) of schedule + drain, or None when the input is not a valid history
-fn simulate(programs: &[Vec<Call>], schedule: &[usize]) -> Option<Vec<(usize, usize, usize)>> {
-    let mut sim = Sim::new(programs);
+fn simulate(
+    programs: &[Vec<Call>],
+    pipes: &[usize],
+    schedule: &[usize],
+) -> Option<Vec<(usize, usize, usize)>> {
+    let mut sim = Sim::new(programs, pipes);
     let mut turns = Vec::new();
     for &t in schedule {
         if let Some((c, s)) = sim.turn(t).ok()? {
@@ -693,7 +1084,13 @@ enum H {
 }
 
 struct Shared {
-    pipeline: Pipeline,
+    pipelines: Vec<Pipeline>,
+    pipes: Vec<usize>,
+    /// the files of the case, written before the threads start (None: could not be written)
+    paths: Vec<PathBuf>,
+    files: Vec<FileSpec>,
+    /// the shared adapter objects, by (format, adapter number >= 1)
+    adapters: Mutex<HashMap<(u8, usize), Arc<dyn VecOps>>>,
     table: Mutex<HashMap<Ref, H>>,
     table_cv: Condvar,
     counter: Arc<AtomicUsize>,
@@ -727,19 +1124,52 @@ impl Shared {
             _ => None,
         }
     }
+    fn pipeline(&self, t: usize) -> &Pipeline {
+        &self.pipelines[self.pipes[t]]
+    }
+    /// THE adapter object number `a` of a format: created on first use, shared afterwards
+    fn adapter(&self, fmt: u8, a: usize) -> Arc<dyn VecOps> {
+        let mut g = self.adapters.lock().unwrap();
+        Arc::clone(g.entry((fmt, a)).or_insert_with(|| match fmt {
+            0 => JsonlVecOps::<Row>::new() as Arc<dyn VecOps>,
+            1 => CsvVecOps::<Row>::new() as Arc<dyn VecOps>,
+            _ => ParquetVecOps::<PRow>::new() as Arc<dyn VecOps>,
+        }))
+    }
 }
 
 fn err_class(e: &anyhow::Error) -> &'static str {
     if e.to_string().contains("nested CoGroup") { "nested_cogroup" } else { "other" }
 }
-fn collect_one<T: Clone + Send + Sync + 'static>(
-    p: PCollection<T>,
+fn collect_one<K: Clone + Send + Sync + Ord + 'static, W: Clone + Send + Sync + Ord + 'static>(
+    pl: &Pipeline,
+    p: PCollection<(K, W)>,
     mode: usize,
-    f: impl Fn(&T) -> Row,
+    digest: bool,
+    f: impl Fn(&(K, W)) -> Row,
 ) -> Value {
-    let r = if mode == 0 { p.collect_seq() } else { p.collect_par(None, Some(mode)) };
+    let r = match mode {
+        0 => p.collect_seq(),
+        1..=999 => p.collect_par(None, Some(mode)),
+        1000 => p.collect_par(None, None),
+        1001 => p.collect(),
+        1002 => p.collect_seq_sorted(),
+        1003 => p.collect_par_sorted(None, Some(2)),
+        1004 => p.collect_par_sorted_by_key(None, Some(3)),
+        1005 => Runner { mode: ExecMode::Sequential, default_partitions: 1, ..Default::default() }
+            .run_collect::<(K, W)>(pl, p.node_id()),
+        _ => Runner {
+            mode: ExecMode::Parallel { threads: None, partitions: None },
+            default_partitions: 3,
+            ..Default::default()
+        }
+        .run_collect::<(K, W)>(pl, p.node_id()),
+    };
     match r {
-        Ok(v) => json!(["ok", rows_json(&v.iter().map(f).collect::<Vec<_>>())]),
+        Ok(v) => {
+            let rows = v.iter().map(f).collect::<Vec<_>>();
+            if digest { rows_digest(&rows) } else { json!(["ok", rows_json(&rows)]) }
+        }
         Err(e) => json!(["err", err_class(&e)]),
     }
 }
@@ -753,8 +1183,57 @@ fn exec_call(sh: &Shared, t: usize, next: &mut usize, call: &Call) -> Value {
     let locks = || STEP.with(Cell::get) - y0;
     match call {
         Call::Src(d) => {
-            let rows: Vec<Row> = d.iter().map(|(k, v)| (*k, Val::I(*v))).collect();
-            let h = from_vec(&sh.pipeline, rows);
+            let rows: Vec<Row> = d.rows().iter().map(|(k, v)| (*k, Val::I(*v))).collect();
+            let h = from_vec(sh.pipeline(t), rows);
+            let id = h.node_id().raw();
+            sh.publish((t, *next), H::G(h));
+            *next += 1;
+            json!(["h", id, locks()])
+        }
+        Call::Custom(lm, sp, pages) => {
+            let pages: Vec<Vec<Row>> = pages
+                .iter()
+                .map(|pg| pg.iter().map(|(k, v)| (*k, Val::I(*v))).collect())
+                .collect();
+            let h: PCollection<Row> =
+                from_custom_source(sh.pipeline(t), Pages(pages), Arc::new(PagesOps { lm: *lm, sp: *sp }));
+            let id = h.node_id().raw();
+            sh.publish((t, *next), H::G(h));
+            *next += 1;
+            json!(["h", id, locks()])
+        }
+        Call::File(a, f, shard, fmt) => {
+            let (pl, path) = (sh.pipeline(t), &sh.paths[*f]);
+            let h: PCollection<Row> = match (*fmt, *a) {
+                (0, 0) => read_jsonl_streaming::<Row>(pl, path, *shard).expect("jsonl source"),
+                (0, a) => from_custom_source(
+                    pl,
+                    build_jsonl_shards(path, *shard).expect("jsonl shards"),
+                    sh.adapter(0, a),
+                ),
+                (1, 0) => read_csv_streaming::<Row>(pl, path, sh.files[*f].p == 1, *shard).expect("csv source"),
+                (1, a) => from_custom_source(
+                    pl,
+                    build_csv_shards(path, sh.files[*f].p == 1, *shard).expect("csv shards"),
+                    sh.adapter(1, a),
+                ),
+                (_, a) => {
+                    let raw: PCollection<PRow> = if a == 0 {
+                        read_parquet_streaming::<PRow>(pl, path, *shard).expect("parquet source")
+                    } else {
+                        from_custom_source(
+                            pl,
+                            build_parquet_shards(path, *shard).expect("parquet shards"),
+                            sh.adapter(2, a),
+                        )
+                    };
+                    let cnt = Arc::clone(&sh.counter);
+                    raw.map(move |r: &PRow| {
+                        cnt.fetch_add(1, Ordering::SeqCst);
+                        (r.k, Val::I(r.v))
+                    })
+                }
+            };
             let id = h.node_id().raw();
             sh.publish((t, *next), H::G(h));
             *next += 1;
@@ -820,15 +1299,16 @@ fn exec_call(sh: &Shared, t: usize, next: &mut usize, call: &Call) -> Value {
             *next += 2;
             json!(["hh", raw_id, id, locks()])
         }
-        Call::Collect(mode, r) => {
+        Call::Collect(mode, r, dg) => {
             let Some(h) = sh.get(*r) else { return json!(["unavailable"]) };
+            let (pl, m, dg) = (sh.pipeline(r.0), *mode, *dg);
             let out = match h {
-                H::G(p) => collect_one(p, *mode, |(k, v)| (*k, v.clone())),
-                H::JI(p) => collect_one(p, *mode, |(k, (v, w))| (*k, pair(v.clone(), w.clone()))),
-                H::JL(p) => collect_one(p, *mode, |(k, (v, w))| (*k, pair(v.clone(), opt(w.clone())))),
-                H::JR(p) => collect_one(p, *mode, |(k, (v, w))| (*k, pair(opt(v.clone()), w.clone()))),
+                H::G(p) => collect_one(pl, p, m, dg, |(k, v)| (*k, v.clone())),
+                H::JI(p) => collect_one(pl, p, m, dg, |(k, (v, w))| (*k, pair(v.clone(), w.clone()))),
+                H::JL(p) => collect_one(pl, p, m, dg, |(k, (v, w))| (*k, pair(v.clone(), opt(w.clone())))),
+                H::JR(p) => collect_one(pl, p, m, dg, |(k, (v, w))| (*k, pair(opt(v.clone()), w.clone()))),
                 H::JF(p) => {
-                    collect_one(p, *mode, |(k, (v, w))| (*k, pair(opt(v.clone()), opt(w.clone()))))
+                    collect_one(pl, p, m, dg, |(k, (v, w))| (*k, pair(opt(v.clone()), opt(w.clone()))))
                 }
             };
             json!(["c", out, locks()])
@@ -863,22 +1343,57 @@ fn thread_body(sh: &Shared, sc: Option<&Sched>, t: usize, program: &[Call]) -> V
     results
 }
 
-fn new_shared(wait: bool) -> Arc<Shared> {
-    Arc::new(Shared {
-        pipeline: Pipeline::default(),
+/// scratch directory of one case (removed when dropped)
+struct Scratch(Option<PathBuf>);
+impl Drop for Scratch {
+    fn drop(&mut self) {
+        if let Some(d) = &self.0 {
+            let _ = std::fs::remove_dir_all(d);
+        }
+    }
+}
+static CASE_NO: AtomicUsize = AtomicUsize::new(0);
+
+/// the shared state of one case; the files of `env` are written first.  None = a file could not
+/// be written (infrastructure; the case is reported as invalid)
+fn new_shared(wait: bool, env: &Env) -> Option<(Arc<Shared>, Scratch)> {
+    let mut paths = Vec::new();
+    let mut scratch = Scratch(None);
+    if !env.files.is_empty() {
+        let d = PathBuf::from(format!(
+            "/verif/run/C08/scratch/{}-{}",
+            std::process::id(),
+            CASE_NO.fetch_add(1, Ordering::SeqCst)
+        ));
+        std::fs::create_dir_all(&d).ok()?;
+        scratch = Scratch(Some(d.clone()));
+        for (i, f) in env.files.iter().enumerate() {
+            let path = d.join(format!("f{i}.{}", ["jsonl", "csv", "parquet"][f.fmt as usize]));
+            f.write(&path).ok()?;
+            paths.push(path);
+        }
+    }
+    let npipes = env.pipes.iter().copied().max().unwrap_or(0) + 1;
+    let sh = Arc::new(Shared {
+        pipelines: (0..npipes).map(|_| Pipeline::default()).collect(),
+        pipes: env.pipes.clone(),
+        paths,
+        files: env.files.clone(),
+        adapters: Mutex::new(HashMap::new()),
         table: Mutex::new(HashMap::new()),
         table_cv: Condvar::new(),
         counter: Arc::new(AtomicUsize::new(0)),
         wait_for_handles: wait,
-    })
+    });
+    Some((sh, scratch))
 }
 
-fn run_hist(programs: &[Vec<Call>], schedule: &[usize]) -> Value {
-    if simulate(programs, schedule).is_none() {
+fn run_hist(programs: &[Vec<Call>], schedule: &[usize], env: &Env) -> Value {
+    if simulate(programs, &env.pipes, schedule).is_none() {
         return json!(["invalid"]);
     }
     let n = programs.len();
-    let sh = new_shared(false);
+    let Some((sh, _scratch)) = new_shared(false, env) else { return json!(["invalid"]) };
     let sc = Sched::new(n);
     let hook_sc = Arc::clone(&sc);
     set_yield_hook(Some(Arc::new(move |site: &'static str| {
@@ -935,11 +1450,11 @@ fn run_hist(programs: &[Vec<Call>], schedule: &[usize]) -> Value {
     json!(["ok", turns, results])
 }
 
-fn run_stress(programs: &[Vec<Call>]) -> Value {
+fn run_stress(programs: &[Vec<Call>], env: &Env) -> Value {
     // valid when the sequential order "thread 0's calls one at a time round-robin" exists:
     // the generator only emits programs whose references point backwards in a global order.
     set_yield_hook(None);
-    let sh = new_shared(true);
+    let Some((sh, _scratch)) = new_shared(true, env) else { return json!(["invalid"]) };
     let mut joins = Vec::new();
     let barrier = Arc::new(std::sync::Barrier::new(programs.len()));
     for (t, prog) in programs.iter().enumerate() {
@@ -956,10 +1471,23 @@ fn run_stress(programs: &[Vec<Call>]) -> Value {
     json!(["ok", results, sh.counter.load(Ordering::SeqCst)])
 }
 
+/// [n, programs, (schedule,) env?]: env is the optional last component
+fn parse_env(input: &Value, base: usize) -> Option<Env> {
+    let a = input.as_array()?;
+    let n = a.first()?.as_u64()? as usize;
+    if a.len() == base {
+        Some(Env::plain(n))
+    } else if a.len() == base + 1 {
+        Env::parse(&a[base], n)
+    } else {
+        None
+    }
+}
 fn run(kind: &str, input: &Value) -> Value {
     match kind {
         "hist" => {
-            let Some(programs) = parse_programs(&input[0], &input[1]) else {
+            let Some(env) = parse_env(input, 3) else { return json!(["invalid"]) };
+            let Some(programs) = parse_programs(&input[0], &input[1], &env.files) else {
                 return json!(["invalid"]);
             };
             let Some(sched) = input[2].as_array() else { return json!(["invalid"]) };
@@ -970,19 +1498,18 @@ fn run(kind: &str, input: &Value) -> Value {
                     _ => return json!(["invalid"]),
                 }
             }
-            if input.as_array().map_or(0, Vec::len) != 3 {
-                return json!(["invalid"]);
-            }
-            run_hist(&programs, &schedule)
+            run_hist(&programs, &schedule, &env)
         }
         "stress" => {
-            let Some(programs) = parse_programs(&input[0], &input[1]) else {
+            let Some(env) = parse_env(input, 2) else { return json!(["invalid"]) };
+            let Some(programs) = parse_programs(&input[0], &input[1], &env.files) else {
                 return json!(["invalid"]);
             };
-            if input.as_array().map_or(0, Vec::len) != 2 || !stress_valid(&programs) {
+            // the free-running kind uses one pipeline (ids are checked against the insert count)
+            if env.pipes.iter().any(|q| *q != 0) || !stress_valid(&programs) {
                 return json!(["invalid"]);
             }
-            run_stress(&programs)
+            run_stress(&programs, &env)
         }
         _ => json!(["bad-kind"]),
     }
@@ -991,7 +1518,7 @@ fn run(kind: &str, input: &Value) -> Value {
 /// free-running programs cannot deadlock when some sequential order of whole calls is valid:
 /// run the threads round-robin, one whole call at a time, skipping threads that would block.
 fn stress_valid(programs: &[Vec<Call>]) -> bool {
-    let mut sim = Sim::new(programs);
+    let mut sim = Sim::new(programs, &[]);
     loop {
         let mut progress = false;
         let mut all_done = true;
@@ -1027,14 +1554,57 @@ fn gen_rows(rng: &mut SplitMix64) -> Vec<(i64, i64)> {
     (0..n).map(|_| (rng.range(0, 2), rng.range(0, 9))).collect()
 }
 
+/// collect modes of the rich families: every public collect entry point, small and large
+/// partition counts
+const RICH_MODES: [usize; 16] = [0, 0, 1, 2, 3, 4, 7, 16, 64, 1000, 1001, 1002, 1003, 1004, 1005, 1006];
+
+/// a random environment: 1..3 pipelines, 2..5 small files.  Line counts are drawn around one
+/// count per case so that files with EQUAL line ranges (and different contents) are frequent.
+fn gen_env(rng: &mut SplitMix64, n: usize) -> Env {
+    let np = *rng.pick(&[1u64, 1, 1, 2, 2, 3]);
+    let pipes = (0..n).map(|_| rng.below(np) as usize).collect();
+    let nf = 2 + rng.below(4) as usize;
+    let c0 = *rng.pick(&[1usize, 2, 3, 4, 4, 5, 8]);
+    let mut files = Vec::new();
+    for _ in 0..nf {
+        let fmt = *rng.pick(&[0u8, 0, 0, 1, 1, 2]);
+        let mut cnt = if rng.chance(2, 3) { c0 } else { *rng.pick(&[0usize, 1, 2, 3, 5, 8]) };
+        if fmt == 2 && cnt == 0 {
+            cnt = c0;
+        }
+        let blanky = fmt == 0 && rng.chance(1, 3);
+        let lines: Vec<Option<(i64, i64)>> = (0..cnt)
+            .map(|_| {
+                if blanky && rng.chance(1, 4) { None } else { Some((rng.range(0, 2), rng.range(0, 9))) }
+            })
+            .collect();
+        let p = match fmt {
+            0 => 0,
+            1 => rng.below(2) as usize,
+            _ => *rng.pick(&[0usize, 1, 2, 3]),
+        };
+        files.push(FileSpec { fmt, p, lines: LinesSpec::List(lines) });
+    }
+    Env { pipes, files }
+}
+
 struct Gen {
     programs: Vec<Vec<Call>>,
     produced: Vec<Vec<bool>>, // completed handles per thread: general?
+    env: Env,
+    rich: bool,
 }
 impl Gen {
-    fn refs(&self, general_only: bool) -> Vec<Ref> {
+    fn new(n: usize, env: Env, rich: bool) -> Gen {
+        Gen { programs: vec![Vec::new(); n], produced: vec![Vec::new(); n], env, rich }
+    }
+    /// handles thread `me` may reference (those of its pipeline)
+    fn refs(&self, me: usize, general_only: bool) -> Vec<Ref> {
         let mut out = Vec::new();
         for (t, hs) in self.produced.iter().enumerate() {
+            if self.env.pipes[t] != self.env.pipes[me] {
+                continue;
+            }
             for (k, g) in hs.iter().enumerate() {
                 if *g || !general_only {
                     out.push((t, k));
@@ -1043,19 +1613,47 @@ impl Gen {
         }
         out
     }
-    fn pick_ref(&self, rng: &mut SplitMix64, general_only: bool) -> Option<Ref> {
-        let rs = self.refs(general_only);
+    fn pick_ref(&self, rng: &mut SplitMix64, me: usize, general_only: bool) -> Option<Ref> {
+        let rs = self.refs(me, general_only);
         if rs.is_empty() {
             return None;
         }
         Some(*rng.pick(&rs))
     }
-    fn new_call(&self, rng: &mut SplitMix64, collect_bias: u64) -> Call {
+    fn new_source(&self, rng: &mut SplitMix64) -> Call {
+        if !self.rich {
+            return Call::Src(RowsSpec::List(gen_rows(rng)));
+        }
+        match rng.below(8) {
+            0 => Call::Src(RowsSpec::List(gen_rows(rng))),
+            1 | 2 => {
+                let np = *rng.pick(&[0usize, 1, 1, 2, 3]);
+                let pages = (0..np)
+                    .map(|_| {
+                        let m = *rng.pick(&[0usize, 1, 2, 3]);
+                        (0..m).map(|_| (rng.range(0, 2), rng.range(0, 9))).collect()
+                    })
+                    .collect();
+                Call::Custom(rng.below(2) as u8, rng.below(3) as u8, pages)
+            }
+            _ if !self.env.files.is_empty() => {
+                let f = rng.below(self.env.files.len() as u64) as usize;
+                Call::File(
+                    *rng.pick(&[0usize, 1, 1, 1, 2]),
+                    f,
+                    *rng.pick(&[0usize, 1, 1, 2, 2, 3, 4, 8]),
+                    self.env.files[f].fmt,
+                )
+            }
+            _ => Call::Src(RowsSpec::List(gen_rows(rng))),
+        }
+    }
+    fn new_call(&self, rng: &mut SplitMix64, me: usize, collect_bias: u64) -> Call {
         loop {
             let roll = rng.below(10 + collect_bias);
             let c = match roll {
-                0 | 1 => Some(Call::Src(gen_rows(rng))),
-                2 | 3 | 4 => self.pick_ref(rng, true).map(|r| {
+                0 | 1 => Some(self.new_source(rng)),
+                2 | 3 | 4 => self.pick_ref(rng, me, true).map(|r| {
                     // map and filter_values a bit more often than the other builders
                     let op = match rng.below(12) {
                         0 => Op::Map,
@@ -1065,19 +1663,20 @@ impl Gen {
                     let (a, b) = op.gen_params(rng);
                     Call::Derive(op, a, b, r)
                 }),
-                5 | 6 => match (self.pick_ref(rng, true), self.pick_ref(rng, true)) {
+                5 | 6 => match (self.pick_ref(rng, me, true), self.pick_ref(rng, me, true)) {
                     (Some(l), Some(r)) => Some(Call::Join(rng.below(4) as u8, l, r)),
                     _ => None,
                 },
-                _ => self
-                    .pick_ref(rng, false)
-                    .map(|r| Call::Collect(*rng.pick(&[0usize, 0, 1, 2, 3]), r)),
+                _ => self.pick_ref(rng, me, false).map(|r| {
+                    let m = if self.rich { *rng.pick(&RICH_MODES) } else { *rng.pick(&[0usize, 0, 1, 2, 3]) };
+                    Call::Collect(m, r, false)
+                }),
             };
             match c {
                 Some(c) => return c,
                 None => {
-                    if self.refs(false).is_empty() {
-                        return Call::Src(gen_rows(rng));
+                    if self.refs(me, false).is_empty() {
+                        return self.new_source(rng);
                     }
                 }
             }
@@ -1086,8 +1685,14 @@ impl Gen {
 }
 
 /// a random valid history: programs and schedule are grown together, step by step
-fn gen_hist(rng: &mut SplitMix64, n: usize, ncalls: usize) -> (Vec<Vec<Call>>, Vec<usize>) {
-    let mut g = Gen { programs: vec![Vec::new(); n], produced: vec![Vec::new(); n] };
+fn gen_hist(
+    rng: &mut SplitMix64,
+    n: usize,
+    ncalls: usize,
+    env: Env,
+    rich: bool,
+) -> (Vec<Vec<Call>>, Vec<usize>, Env) {
+    let mut g = Gen::new(n, env, rich);
     let mut cur: Vec<Option<usize>> = vec![None; n]; // step inside the current call
     let mut schedule = Vec::new();
     let mut budget = ncalls;
@@ -1111,7 +1716,7 @@ fn gen_hist(rng: &mut SplitMix64, n: usize, ncalls: usize) -> (Vec<Vec<Call>>, V
             if budget == 0 {
                 continue;
             }
-            let call = g.new_call(rng, if budget * 2 < ncalls { 4 } else { 0 });
+            let call = g.new_call(rng, t, if budget * 2 < ncalls { 4 } else { 0 });
             g.programs[t].push(call);
             budget -= 1;
             cur[t] = Some(0);
@@ -1119,9 +1724,8 @@ fn gen_hist(rng: &mut SplitMix64, n: usize, ncalls: usize) -> (Vec<Vec<Call>>, V
         let st = cur[t].unwrap();
         let call = g.programs[t].last().unwrap().clone();
         match (&call, st) {
-            (Call::Src(_), 0) | (Call::Join(..), 6) => {
-                g.produced[t].push(true);
-            }
+            (Call::Join(..), 6) => g.produced[t].push(true),
+            (c, st) if c.is_source() && st + 1 == c.steps() => g.produced[t].push(true),
             (Call::Derive(op, ..), st) if st + 1 == 2 * op.nodes() => {
                 g.produced[t].push(true);
             }
@@ -1136,15 +1740,46 @@ fn gen_hist(rng: &mut SplitMix64, n: usize, ncalls: usize) -> (Vec<Vec<Call>>, V
         let cut = rng.below(schedule.len() as u64 + 1) as usize;
         let mut s2 = schedule.clone();
         s2.truncate(cut);
-        if simulate(&g.programs, &s2).is_some() {
+        if simulate(&g.programs, &g.env.pipes, &s2).is_some() {
             schedule = s2;
         }
     }
-    (g.programs, schedule)
+    (g.programs, schedule, g.env)
 }
 
-fn nontrivial_hist(programs: &[Vec<Call>], schedule: &[usize]) -> bool {
-    let Some(turns) = simulate(programs, schedule) else { return false };
+/// the call that produced handle r, and whether it is the raw output of a join
+fn producer<'a>(programs: &'a [Vec<Call>], r: Ref) -> Option<&'a Call> {
+    let mut idx = 0usize;
+    for call in programs.get(r.0)? {
+        let n = match call {
+            Call::Collect(..) => 0,
+            Call::Join(..) => 2,
+            _ => 1,
+        };
+        if r.1 >= idx && r.1 < idx + n {
+            return Some(call);
+        }
+        idx += n;
+    }
+    None
+}
+/// does the lineage of handle r contain a custom / file / generated source?
+fn has_rich_source(programs: &[Vec<Call>], r: Ref, fuel: usize) -> bool {
+    if fuel == 0 {
+        return false;
+    }
+    match producer(programs, r) {
+        Some(Call::Custom(..) | Call::File(..) | Call::Src(RowsSpec::Gen(..))) => true,
+        Some(Call::Derive(_, _, _, p)) => has_rich_source(programs, *p, fuel - 1),
+        Some(Call::Join(_, l, rr)) => {
+            has_rich_source(programs, *l, fuel - 1) || has_rich_source(programs, *rr, fuel - 1)
+        }
+        _ => false,
+    }
+}
+
+fn nontrivial_hist(programs: &[Vec<Call>], env: &Env, schedule: &[usize]) -> bool {
+    let Some(turns) = simulate(programs, &env.pipes, schedule) else { return false };
     // a thread is pre-empted between two locks of one call by a turn of another thread
     let mut preempted = false;
     for w in turns.windows(2) {
@@ -1153,29 +1788,19 @@ fn nontrivial_hist(programs: &[Vec<Call>], schedule: &[usize]) -> bool {
             preempted = true;
         }
     }
-    let kinds: Vec<Vec<bool>> = programs.iter().map(|p| handle_kinds(p)).collect();
-    let _ = kinds;
     let collects_derived = programs.iter().flatten().any(|c| match c {
-        Call::Collect(_, (t, k)) => {
-            // the k-th handle of thread t is not a bare source
-            let mut idx = 0usize;
-            let mut derived = false;
-            for call in &programs[*t] {
-                let n = match call {
-                    Call::Collect(..) => 0,
-                    Call::Join(..) => 2,
-                    _ => 1,
-                };
-                if *k >= idx && *k < idx + n {
-                    derived = !matches!(call, Call::Src(_));
-                }
-                idx += n;
-            }
-            derived
-        }
+        // the collected handle is not a bare source
+        Call::Collect(_, r, _) => producer(programs, *r).is_some_and(|p| !p.is_source()),
         _ => false,
     });
-    preempted && collects_derived
+    // rich families: >= 2 collects, one of them of a collection over a custom / streamed / big source
+    let total: usize = programs.iter().map(Vec::len).sum();
+    let ncollects = programs.iter().flatten().filter(|c| matches!(c, Call::Collect(..))).count();
+    let collects_rich = programs.iter().flatten().any(|c| match c {
+        Call::Collect(_, r, _) => has_rich_source(programs, *r, total + 1),
+        _ => false,
+    });
+    (preempted && collects_derived) || (ncollects >= 2 && collects_rich)
 }
 
 fn interleavings(counts: &mut Vec<usize>, cur: &mut Vec<usize>, out: &mut Vec<Vec<usize>>) {
@@ -1194,29 +1819,41 @@ fn interleavings(counts: &mut Vec<usize>, cur: &mut Vec<usize>, out: &mut Vec<Ve
     }
 }
 
-fn emit_hist(em: &mut Emitter, programs: &[Vec<Call>], schedule: &[usize], tags: &[&str]) {
-    let nt = nontrivial_hist(programs, schedule);
-    em.case("hist", json!([programs.len(), programs_json(programs), schedule]), nt, tags);
+fn emit_hist_env(em: &mut Emitter, programs: &[Vec<Call>], schedule: &[usize], env: &Env, tags: &[&str]) {
+    let nt = nontrivial_hist(programs, env, schedule);
+    if env.is_plain() {
+        em.case("hist", json!([programs.len(), programs_json(programs), schedule]), nt, tags);
+    } else {
+        em.case("hist", json!([programs.len(), programs_json(programs), schedule, env.json()]), nt, tags);
+    }
 }
 
 /// every valid interleaving of the locks of the given programs
-fn emit_exhaustive(em: &mut Emitter, programs: &[Vec<Call>], tag: &str) -> usize {
+fn emit_exhaustive(em: &mut Emitter, programs: &[Vec<Call>], env: &Env, tag: &str) -> usize {
     let mut counts: Vec<usize> =
         programs.iter().map(|p| p.iter().map(Call::steps).sum()).collect();
     let mut all = Vec::new();
     interleavings(&mut counts, &mut Vec::new(), &mut all);
     let mut n = 0;
     for s in all {
-        if simulate(programs, &s).is_some() {
-            emit_hist(em, programs, &s, &["exhaustive", tag]);
+        if simulate(programs, &env.pipes, &s).is_some() {
+            emit_hist_env(em, programs, &s, env, &["exhaustive", tag]);
             n += 1;
         }
     }
     n
 }
 
-fn exhaustive_sets(tier: Tier) -> Vec<(&'static str, Vec<Vec<Call>>)> {
-    use Call::{Collect, Join, Src};
+fn exhaustive_sets(tier: Tier) -> Vec<(&'static str, Vec<Vec<Call>>, Env)> {
+    use Call::Join;
+    #[allow(non_snake_case)]
+    fn Src(d: Vec<(i64, i64)>) -> Call {
+        Call::Src(RowsSpec::List(d))
+    }
+    #[allow(non_snake_case)]
+    fn Collect(m: usize, r: Ref) -> Call {
+        Call::Collect(m, r, false)
+    }
     #[allow(non_snake_case)]
     fn Map(c: i64, r: Ref) -> Call {
         Call::Derive(Op::Map, c, 0, r)
@@ -1239,6 +1876,7 @@ fn exhaustive_sets(tier: Tier) -> Vec<(&'static str, Vec<Vec<Call>>)> {
                 vec![Src(a.clone()), Map(1, (0, 0)), Collect(0, (0, 1))],
                 vec![Filter(2, 1, (0, 0)), Collect(0, (0, 0))],
             ],
+            Env::plain(2),
         ),
         // the insert/connect window of two derives of the same parent
         (
@@ -1248,6 +1886,7 @@ fn exhaustive_sets(tier: Tier) -> Vec<(&'static str, Vec<Vec<Call>>)> {
                 vec![Map(2, (0, 0))],
                 vec![Collect(0, (0, 0))],
             ],
+            Env::plain(3),
         ),
         // a join (5 + 2 locks) against a derive of its left input and a collect of the join
         (
@@ -1256,6 +1895,7 @@ fn exhaustive_sets(tier: Tier) -> Vec<(&'static str, Vec<Vec<Call>>)> {
                 vec![Src(a.clone()), Join(0, (0, 0), (0, 0))],
                 vec![Src(b.clone()), Map(1, (0, 0))],
             ],
+            Env::plain(2),
         ),
         (
             "E4",
@@ -1263,6 +1903,7 @@ fn exhaustive_sets(tier: Tier) -> Vec<(&'static str, Vec<Vec<Call>>)> {
                 vec![Src(a.clone()), Src(b.clone()), Join(1, (0, 0), (0, 1))],
                 vec![Collect(0, (0, 1)), Map(1, (0, 1))],
             ],
+            Env::plain(2),
         ),
     ];
     // other builder families: in-place modification of the parent would show in the collects of
@@ -1273,6 +1914,7 @@ fn exhaustive_sets(tier: Tier) -> Vec<(&'static str, Vec<Vec<Call>>)> {
             vec![Src(a.clone()), D(Op::MapValues, 0, 0, (0, 0)), D(Op::FilterValues, 2, 1, (0, 1))],
             vec![Collect(0, (0, 1)), Collect(1, (0, 1))],
         ],
+        Env::plain(2),
     ));
     v.push((
         "E8",
@@ -1280,6 +1922,41 @@ fn exhaustive_sets(tier: Tier) -> Vec<(&'static str, Vec<Vec<Call>>)> {
             vec![Src(a.clone()), D(Op::Distinct, 0, 0, (0, 0))],
             vec![D(Op::GroupByKey, 0, 0, (0, 0)), Collect(0, (0, 0))],
         ],
+        Env::plain(2),
+    ));
+    // two streamed sources that share ONE adapter object, in two pipelines, every interleaving of
+    // the two threads' builds and collects (JSONL with a blank line / CSV)
+    let fa = vec![Some((0, 1)), None, Some((1, 2)), Some((0, 3))];
+    let fb = vec![Some((2, 7)), Some((0, 5)), None, Some((1, 9))];
+    v.push((
+        "E9",
+        if tier == Tier::Thorough {
+            vec![
+                vec![Call::File(1, 0, 2, 0), Collect(0, (0, 0)), Collect(2, (0, 0))],
+                vec![Call::File(1, 1, 2, 0), Collect(2, (1, 0)), Collect(0, (1, 0))],
+            ]
+        } else {
+            vec![
+                vec![Call::File(1, 0, 2, 0), Collect(0, (0, 0))],
+                vec![Call::File(1, 1, 2, 0), Collect(2, (1, 0)), Collect(0, (1, 0))],
+            ]
+        },
+        Env {
+            pipes: vec![0, 1],
+            files: vec![
+                FileSpec { fmt: 0, p: 0, lines: LinesSpec::List(fa.clone()) },
+                FileSpec { fmt: 0, p: 0, lines: LinesSpec::List(fb.clone()) },
+            ],
+        },
+    ));
+    // an unknown-length custom source: a derive and collects (both modes) from two threads
+    v.push((
+        "E10",
+        vec![
+            vec![Call::Custom(0, 1, vec![vec![(0, 1), (1, 2)], vec![(0, 3)]]), Map(1, (0, 0)), Collect(2, (0, 1))],
+            vec![Collect(3, (0, 0)), Collect(0, (0, 0))],
+        ],
+        Env::plain(2),
     ));
     if tier == Tier::Thorough {
         v.push((
@@ -1289,6 +1966,7 @@ fn exhaustive_sets(tier: Tier) -> Vec<(&'static str, Vec<Vec<Call>>)> {
                 vec![Map(2, (0, 0)), Collect(2, (1, 0))],
                 vec![Collect(0, (0, 0))],
             ],
+            Env::plain(3),
         ));
         v.push((
             "E5",
@@ -1296,6 +1974,7 @@ fn exhaustive_sets(tier: Tier) -> Vec<(&'static str, Vec<Vec<Call>>)> {
                 vec![Src(a.clone()), Join(3, (0, 0), (1, 0)), Collect(0, (0, 2))],
                 vec![Src(b.clone()), Filter(2, 1, (1, 0)), Collect(1, (1, 1))],
             ],
+            Env::plain(2),
         ));
         v.push((
             "E6",
@@ -1304,17 +1983,231 @@ fn exhaustive_sets(tier: Tier) -> Vec<(&'static str, Vec<Vec<Call>>)> {
                 vec![Collect(0, (0, 0))],
                 vec![Map(1, (0, 0))],
             ],
+            Env::plain(3),
+        ));
+        v.push((
+            "E9c",
+            vec![
+                vec![Call::File(1, 0, 3, 1), Collect(0, (0, 0)), Collect(2, (0, 0))],
+                vec![Call::File(1, 1, 3, 1), Map(1, (1, 0)), Collect(2, (1, 1)), Collect(0, (1, 0))],
+            ],
+            Env {
+                pipes: vec![0, 0],
+                files: vec![
+                    FileSpec { fmt: 1, p: 1, lines: LinesSpec::List(fa.into_iter().flatten().map(Some).collect()) },
+                    FileSpec { fmt: 1, p: 1, lines: LinesSpec::List(fb.into_iter().flatten().map(Some).collect()) },
+                ],
+            },
         ));
     }
     v
 }
 
-fn gen_stress(rng: &mut SplitMix64, n: usize, ncalls: usize) -> Vec<Vec<Call>> {
+// ------------------------------------------------------------------ scenario families (round 4)
+// Single-threaded scripts (n = 1, empty schedule: the drain runs them) and two-thread scripts on
+// two pipelines, swept over sizes (every power of two and some odd sizes), formats, shard sizes,
+// adapter sharing, collect orders and every collect entry point.
+
+const SMALL_SIZES: [usize; 12] = [0, 1, 2, 3, 4, 5, 8, 16, 20, 32, 64, 128];
+const BIG_SIZES: [usize; 5] = [256, 512, 1024, 4096, 65536];
+
+fn shard_choices(n: usize) -> Vec<usize> {
+    let mut v = vec![0usize, 1, 2, 3, n / 4, n / 2, n.max(1) - 1, n, n + 1, 2 * n + 1];
+    // every range is read by scanning the file from its start: keep <= 64 shards for big files
+    v.retain(|s| n <= 128 || (*s >= n.div_ceil(64)));
+    v.sort_unstable();
+    v.dedup();
+    v
+}
+
+/// "share": k files of one format with the SAME line count and different rows, sources over them
+/// built with one shared adapter (and one through the read_*_streaming entry point), a derived
+/// branch, collects in a seeded order and in all modes, on one pipeline or spread over two
+fn scenario_share(rng: &mut SplitMix64, em: &mut Emitter, fmt: u8, n: usize, two_pipes: bool, digest: bool) {
+    if fmt == 2 && n == 0 {
+        return;
+    }
+    let nfiles = 2 + rng.below(2) as usize;
+    let blank = if fmt == 0 && n >= 3 && rng.chance(1, 2) { 2 + rng.below(3) as usize } else { 0 };
+    let p = match fmt {
+        0 => 0,
+        1 => rng.below(2) as usize,
+        _ => *rng.pick(&[0usize, 1, 2, (n / 3).max(1), n.max(1)]),
+    };
+    let files: Vec<FileSpec> = (0..nfiles)
+        .map(|i| FileSpec {
+            fmt,
+            p: if fmt == 2 && n > 128 { p.max(n.div_ceil(64)) } else { p },
+            lines: LinesSpec::Gen(n, 100 * (i as i64 + 1), 3, blank),
+        })
+        .collect();
+    let shards = shard_choices(n);
+    let shard = *rng.pick(&shards);
+    let nthreads = if two_pipes { 2 } else { 1 };
+    let mut programs: Vec<Vec<Call>> = vec![Vec::new(); nthreads];
+    let mut handles: Vec<Ref> = Vec::new();
+    let mut made = vec![0usize; nthreads];
+    // sources: file i with the shared adapter 1; file 1 once more through the convenience entry point
+    for i in 0..nfiles {
+        let t = if two_pipes { i % 2 } else { 0 };
+        programs[t].push(Call::File(1, i, shard, fmt));
+        handles.push((t, made[t]));
+        made[t] += 1;
+    }
+    {
+        let t = nthreads - 1;
+        programs[t].push(Call::File(0, 1, *rng.pick(&shards), fmt));
+        handles.push((t, made[t]));
+        made[t] += 1;
+    }
+    // a derived branch of the second source
+    let (t1, k1) = handles[1];
+    let op = if digest { Op::Map } else { *rng.pick(&[Op::Map, Op::Filter, Op::KeyBy, Op::CombineValues]) };
+    let (a, b) = op.gen_params(rng);
+    programs[t1].push(Call::Derive(op, a, b, (t1, k1)));
+    handles.push((t1, made[t1]));
+    made[t1] += 1;
+    // collects: every handle in both kinds of mode, in a seeded order, some repeated
+    let par_modes: Vec<usize> = if n > 128 { vec![1, 2, 3, 64, 1000] } else { vec![1, 2, 3, 4, 7, 16, 64, 1000, 1006] };
+    let mut todo: Vec<(Ref, usize)> = Vec::new();
+    for h in &handles {
+        todo.push((*h, *rng.pick(&[0usize, 0, 1001, 1005])));
+        todo.push((*h, *rng.pick(&par_modes)));
+    }
+    for _ in 0..3 {
+        todo.push((*rng.pick(&handles), *rng.pick(&par_modes)));
+    }
+    // seeded shuffle
+    for i in (1..todo.len()).rev() {
+        let j = rng.below(i as u64 + 1) as usize;
+        todo.swap(i, j);
+    }
+    for (h, m) in todo {
+        programs[h.0].push(Call::Collect(m, h, digest));
+    }
+    let env = Env { pipes: (0..nthreads).collect(), files };
+    // two pipelines: thread 0 builds, thread 1 builds, then the collects alternate in blocks
+    let mut schedule = Vec::new();
+    if two_pipes {
+        let steps: Vec<usize> = programs.iter().map(|p| p.iter().map(Call::steps).sum()).collect();
+        let (mut r0, mut r1) = (steps[0], steps[1]);
+        while r0 > 0 || r1 > 0 {
+            let k = 3 * (1 + rng.below(3) as usize);
+            for _ in 0..k.min(r0) {
+                schedule.push(0);
+            }
+            r0 -= k.min(r0);
+            let k = 3 * (1 + rng.below(3) as usize);
+            for _ in 0..k.min(r1) {
+                schedule.push(1);
+            }
+            r1 -= k.min(r1);
+        }
+        if simulate(&programs, &env.pipes, &schedule).is_none() {
+            schedule.clear();
+        }
+    }
+    emit_hist_env(em, &programs, &schedule, &env, &["share", ["jsonl", "csv", "parquet"][fmt as usize]]);
+}
+
+/// "custom": a user-written source (len None / Some, split None / pages / chunks), derived
+/// branches, a join with a plain source, collects through every entry point, repeated
+fn scenario_custom(rng: &mut SplitMix64, em: &mut Emitter, lm: u8, sp: u8, n: usize, digest: bool) {
+    // n rows over a seeded page layout (also: no page at all, empty pages)
+    let mut pages: Vec<Vec<(i64, i64)>> = Vec::new();
+    let mut left = n;
+    let mut i = 0i64;
+    let layout = rng.below(4);
+    while left > 0 {
+        let k = match layout {
+            0 => left,
+            1 => 1,
+            2 => (n / 4).max(1).min(left),
+            _ => (1 + rng.below(4) as usize).min(left),
+        };
+        pages.push((0..k).map(|j| ((i + j as i64) % 3, 10 + i + j as i64)).collect());
+        i += k as i64;
+        left -= k;
+        if rng.chance(1, 6) && n <= 128 {
+            pages.push(Vec::new());
+        }
+    }
+    if n == 0 && rng.chance(1, 2) {
+        pages.push(Vec::new());
+    }
+    let mut prog = vec![Call::Custom(lm, sp, pages)];
+    let mut handles = vec![(0usize, 0usize)];
+    let push = |prog: &mut Vec<Call>, handles: &mut Vec<Ref>, c: Call| {
+        let k = handles.len();
+        let two = matches!(c, Call::Join(..));
+        prog.push(c);
+        handles.push((0, k));
+        if two {
+            handles.push((0, k + 1));
+        }
+    };
+    push(&mut prog, &mut handles, Call::Derive(Op::Map, 2, 0, (0, 0)));
+    if !digest {
+        let op = *rng.pick(&[Op::KeyBy, Op::CombineValues, Op::Filter, Op::FlatMap, Op::GroupByKey, Op::Distinct]);
+        let (a, b) = op.gen_params(rng);
+        push(&mut prog, &mut handles, Call::Derive(op, a, b, (0, 0)));
+        push(&mut prog, &mut handles, Call::Src(RowsSpec::List(vec![(0, 5), (1, 6), (5, 7)])));
+        let other = handles.len() - 1;
+        let kind = rng.below(4) as u8;
+        if rng.chance(1, 2) {
+            push(&mut prog, &mut handles, Call::Join(kind, (0, 0), (0, other)));
+        } else {
+            push(&mut prog, &mut handles, Call::Join(kind, (0, other), (0, 1)));
+        }
+    }
+    let modes: Vec<usize> =
+        if digest { vec![0, 1, 2, 3, 64, 999, 1000, 1001, 1005, 1006] } else { RICH_MODES.to_vec() };
+    let mut todo: Vec<(Ref, usize)> = Vec::new();
+    for h in &handles {
+        todo.push((*h, *rng.pick(&[0usize, 1001, 1005])));
+        todo.push((*h, *rng.pick(&modes)));
+    }
+    for m in [1usize, 2, 3, 1000, 1006] {
+        todo.push(((0, 0), m));
+    }
+    for i in (1..todo.len()).rev() {
+        let j = rng.below(i as u64 + 1) as usize;
+        todo.swap(i, j);
+    }
+    // more building in between must not matter
+    let half = todo.len() / 2;
+    for (i, (h, m)) in todo.into_iter().enumerate() {
+        if i == half {
+            prog.push(Call::Src(RowsSpec::List(vec![(7, 8), (8, 9)])));
+        }
+        prog.push(Call::Collect(m, h, digest));
+    }
+    emit_hist_env(em, &[prog], &[], &Env::plain(1), &["custom"]);
+}
+
+/// "sizes": a generated from_vec source of n rows, a map -> filter -> key_by chain, collected
+/// through every mode (digest for big n)
+fn scenario_sizes(rng: &mut SplitMix64, em: &mut Emitter, n: usize, digest: bool) {
+    let mut prog = vec![
+        Call::Src(RowsSpec::Gen(n, 10, 5)),
+        Call::Derive(Op::Map, 1, 0, (0, 0)),
+        Call::Derive(Op::Filter, 3, rng.range(0, 2), (0, 1)),
+        Call::Derive(Op::KeyBy, 3, 0, (0, 2)),
+    ];
+    let modes = [0usize, 1, 2, 3, 4, 8, 16, 64, 256, 999, 1000, 1001, 1005, 1006];
+    for k in 0..4usize {
+        prog.push(Call::Collect(if k % 2 == 0 { 0 } else { *rng.pick(&modes) }, (0, k), digest));
+        prog.push(Call::Collect(*rng.pick(&modes), (0, 3 - k), digest));
+    }
+    emit_hist_env(em, &[prog], &[], &Env::plain(1), &["sizes"]);
+}
+
+fn gen_stress(rng: &mut SplitMix64, n: usize, ncalls: usize, env: Env, rich: bool) -> (Vec<Vec<Call>>, Env) {
     // a sequential global order of whole calls, dealt to random threads
-    let mut g = Gen { programs: vec![Vec::new(); n], produced: vec![Vec::new(); n] };
+    let mut g = Gen::new(n, env, rich);
     for i in 0..ncalls {
         let t = rng.below(n as u64) as usize;
-        let call = g.new_call(rng, if i * 2 > ncalls { 4 } else { 0 });
+        let call = g.new_call(rng, t, if i * 2 > ncalls { 4 } else { 0 });
         match &call {
             Call::Join(..) => {
                 g.produced[t].push(false);
@@ -1325,32 +2218,75 @@ fn gen_stress(rng: &mut SplitMix64, n: usize, ncalls: usize) -> Vec<Vec<Call>> {
         }
         g.programs[t].push(call);
     }
-    g.programs
+    (g.programs, g.env)
 }
 
 fn generate(seed: u64, tier: Tier, em: &mut Emitter) {
+    let thorough = tier == Tier::Thorough;
     // 1. exhaustive interleavings of small fixed programs
-    for (tag, programs) in exhaustive_sets(tier) {
-        emit_exhaustive(em, &programs, tag);
+    for (tag, programs, env) in exhaustive_sets(tier) {
+        emit_exhaustive(em, &programs, &env, tag);
     }
-    // 2. seeded random histories, 1..4 threads
+    // 2. scenario sweeps: adapter sharing / custom sources / sizes
+    let mut srng = SplitMix64::new(seed ^ 0xC08_5CE);
+    for rep in 0..(if thorough { 4 } else { 1 }) {
+        for fmt in 0..3u8 {
+            for &n in &SMALL_SIZES {
+                scenario_share(&mut srng, em, fmt, n, (n + rep) % 2 == 1, false);
+            }
+            for &n in &BIG_SIZES {
+                if n <= 4096 || (fmt == 0 && rep == 0) || thorough {
+                    scenario_share(&mut srng, em, fmt, n, false, true);
+                }
+            }
+        }
+        for lm in 0..2u8 {
+            for sp in 0..3u8 {
+                for &n in &SMALL_SIZES {
+                    scenario_custom(&mut srng, em, lm, sp, n, false);
+                }
+                for &n in &BIG_SIZES {
+                    if n <= 1024 || (lm == 0 && sp == 1) || thorough {
+                        scenario_custom(&mut srng, em, lm, sp, n, true);
+                    }
+                }
+            }
+        }
+        for &n in SMALL_SIZES.iter().chain(&[256usize, 512, 1024]) {
+            scenario_sizes(&mut srng, em, n, n > 128);
+        }
+        for &n in &[4096usize, 65536, 131_072] {
+            scenario_sizes(&mut srng, em, n, true);
+        }
+    }
+    // 3. seeded random histories, 1..4 threads; every third one over custom / streamed sources,
+    //    1..3 pipelines and all collect entry points
     let mut rng = SplitMix64::new(seed ^ 0xC08);
-    let n_hist = if tier == Tier::Thorough { 20000 } else { 5000 };
+    let n_hist = if thorough { 20000 } else { 5000 };
     for i in 0..n_hist {
         let n = 1 + (i % 4);
         let ncalls = 2 + rng.below(11) as usize;
-        let (programs, schedule) = gen_hist(&mut rng, n, ncalls);
-        emit_hist(em, &programs, &schedule, &["random"]);
+        let rich = i % 3 == 2;
+        let env = if rich { gen_env(&mut rng, n) } else { Env::plain(n) };
+        let (programs, schedule, env) = gen_hist(&mut rng, n, ncalls, env, rich);
+        emit_hist_env(em, &programs, &schedule, &env, &[if rich { "random-rich" } else { "random" }]);
     }
-    // 3. free-running stress, 4 threads (2..4 in the thorough tier)
-    let n_stress = if tier == Tier::Thorough { 600 } else { 60 };
+    // 4. free-running stress, 4 threads (2..4 in the thorough tier); every other one rich
+    let n_stress = if thorough { 600 } else { 60 };
     for i in 0..n_stress {
-        let n = if tier == Tier::Thorough { 2 + (i % 3) } else { 4 };
+        let n = if thorough { 2 + (i % 3) } else { 4 };
         let ncalls = 10 + rng.below(30) as usize;
-        let programs = gen_stress(&mut rng, n, ncalls);
+        let rich = i % 2 == 1;
+        let mut env = if rich { gen_env(&mut rng, n) } else { Env::plain(n) };
+        env.pipes = vec![0; n];
+        let (programs, env) = gen_stress(&mut rng, n, ncalls, env, rich);
         let total_inserts: usize = programs.iter().flatten().map(Call::inserts).sum();
         let nt = programs.iter().filter(|p| !p.is_empty()).count() >= 2 && total_inserts >= 4;
-        em.case("stress", json!([n, programs_json(&programs)]), nt, &["stress"]);
+        if env.is_plain() {
+            em.case("stress", json!([n, programs_json(&programs)]), nt, &["stress"]);
+        } else {
+            em.case("stress", json!([n, programs_json(&programs), env.json()]), nt, &["stress-rich"]);
+        }
     }
 }
 
